@@ -992,6 +992,7 @@ func (r *replicateChannelHandler) AddCollection(taskID string, sourceInfo *model
 	go func() {
 		log.Info("start to handle the msg pack", zap.String("channel_name", sourceInfo.VChannel))
 		for {
+			streamChan = verifNilIfDone(r.replicateCtx, streamChan, "reader:stream")
 			select {
 			case <-r.replicateCtx.Done():
 				log.Warn("replicate channel handler closed")
